@@ -97,7 +97,7 @@ type Tamper struct {
 	Nth  int    `json:"nth"`  // UDP: which datagram of that direction (1-based)
 	Kind string `json:"kind"` // "flip","sub","ins","del","trunc","splice","swapwrites","dropwrite","dupwrite"
 	Bit  int    `json:"bit"`
-	Seg  string `json:"seg"`  // UDP: select the first transmission of this segment kind ("open","data",...) with Seq instead of Nth
+	Seg  string `json:"seg"` // UDP: select the first transmission of this segment kind ("open","data",...) with Seq instead of Nth
 	Seq  int    `json:"seq"`
 	Src  int    `json:"src"` // splice: copy Len bytes from offset Src of the same datagram/write over Off
 	Len  int    `json:"len"`
@@ -116,16 +116,18 @@ type Scenario struct {
 	DupPct    int           `json:"dup"`
 	DelayPct  int           `json:"delay"`
 	Tampers   []Tamper      `json:"tampers"`
-	Chunk     int           `json:"chunk"`   // TCP: max bytes per network Read (0 = unlimited, -1 = seeded random)
+	Chunk     int           `json:"chunk"` // TCP: max bytes per network Read (0 = unlimited, -1 = seeded random)
 	Multiplex int           `json:"multiplex"`
-	LimitSec  int           `json:"limit"`   // virtual seconds before the run is declared stalled
+	S2CLat    int           `json:"s2clat"` // TCP: milliseconds every server-to-client byte stays in flight
+	C2SLat    int           `json:"c2slat"`
+	LimitSec  int           `json:"limit"` // virtual seconds before the run is declared stalled
 	Seed      int64         `json:"seed"`
 	NoTxLog   int           `json:"notx"` // 1: omit delivered acks; 2: omit every wire event that met no fault
 	Linger    int           `json:"linger"`
 	Gates     []*Gate       `json:"gates"`
-	User      string        `json:"user"` // user name (default verifuser); decides the padding strategy
+	User      string        `json:"user"`     // user name (default verifuser); decides the padding strategy
 	Realtime  bool          `json:"realtime"` // run on the wall clock, outside a synctest bubble
-	Expect    string        `json:"expect"`  // "complete": every byte written must be read and the run must not stall  // virtual ms to keep muxes alive after programmes end
+	Expect    string        `json:"expect"`   // "complete": every byte written must be read and the run must not stall  // virtual ms to keep muxes alive after programmes end
 }
 
 // Event is one trace line. Every field is always present.
@@ -577,6 +579,14 @@ func Run(sc *Scenario) (res *Result) {
 				rec.add(Event{Ev: "Tx", Ep: ep, S: -1, Ok: false, Err: "undecodable: " + d.Err.Error(), Off: -1, A: conn})
 				d.Err = nil
 				d.Keys = nil
+			}
+		}
+		if sc.S2CLat > 0 || sc.C2SLat > 0 {
+			snet.Latency = func(conn int, dir string) time.Duration {
+				if dir == "S2C" {
+					return time.Duration(sc.S2CLat) * time.Millisecond
+				}
+				return time.Duration(sc.C2SLat) * time.Millisecond
 			}
 		}
 		if sc.Chunk != 0 {
